@@ -213,6 +213,7 @@ def run(col, configs, tier):
         guarded(col, I.rule_sizes, facts)
         guarded(col, X.rule_buffer_allowance, facts)
         guarded(col, X.rule_exponent_allowance, facts)
+        guarded(col, X.rule_min_digits_allowance, facts)
         guarded(col, X.rule_debug_buffer_belief, facts)
         guarded(col, X.rule_radix_digit_clamp, facts)
         guarded(col, X.rule_u128_count_chunks, facts)
